@@ -55,6 +55,18 @@ static int do_table(const jv *v, int full)
         }
 done:
     VD_END();
+    /* scale: a run of k adjacent comments between two tokens (all transparent by the table): [<k comments> 1, "a slash-star b star-slash // c" ] */
+    { static const long KS[] = { 1000, 100000, 2000000 }; size_t ki;
+      for (ki = 0; ki < 3; ki++) {
+          static const char *C[] = { "/**/", " // x\n", "\t/* y */", "/*/ * /*/" }; const char *tail = " 1, \"a /* b */ // c\" ]", *want = "[1,\"a /* b */ // c\"]";
+          long k = KS[ki], i; size_t cap = (size_t)k * 10 + 64, n = 0; char *t = (char*)malloc(cap);
+          t[n++] = '['; for (i = 0; i < k; i++) { const char *c = C[i & 3]; size_t l = strlen(c); memcpy(t + n, c, l); n += l; } strcpy(t + n, tail);
+          vd_tick();
+          if (VD_TRY()) { cJSON_Minify(t); VD_END(); table_texts++;
+              if (strcmp(t, want)) vd_violation("cJSON_Minify: %ld adjacent comments between two tokens: the result is \"%.40s\" instead of \"%s\"", k, t, want); }
+          else vd_violation("cJSON_Minify: %ld adjacent comments between two tokens: crash (stack exhaustion?) or hang", k);
+          free(t);
+      } }
     return 1;
 }
 
